@@ -112,6 +112,16 @@ def canon_norm(a):
     return float(sum(abs(v) for v in a.values()))
 
 
+def raw_norm(o):
+    """Sum of |coefficients| of an operand spec as written (like terms not merged): the magnitude the library's
+    term-by-term arithmetic works with, hence the scale of its rounding errors."""
+    if "t" in o:
+        return float(abs(coef(o["t"]["c"])))
+    if "s" in o:
+        return float(sum(abs(coef(t["c"])) for t in o["s"]["terms"]))
+    return float(abs(coef(o["n"])))
+
+
 def canon_of(op):
     """Canonical form of a library PauliTerm / PauliSum / number (reads only public data)."""
     if isinstance(op, (int, float, complex)):
@@ -177,12 +187,22 @@ def terms(draw, max_q=5, zero=True, kinds=("int", "float", "complex"), letters="
     return {"ops": ops, "c": draw(coefs(zero, kinds))}
 
 
+NEAR_CANCEL = [1e-5, -3e-6, 4e-7, 1e-7, -5e-8, 8e-9, -2e-9, 2.5e-10]
+
+
 @st.composite
 def sums(draw, max_q=5, max_terms=6, dup=True, **kw):
     ts = draw(st.lists(terms(max_q=max_q, **kw), max_size=max_terms))
     if dup and ts and draw(st.integers(0, 2)) == 0:
         t = dict(draw(st.sampled_from(ts)))
-        t["c"] = draw(coefs(kw.get("zero", True), kw.get("kinds", ("int", "float", "complex"))))
+        if draw(st.integers(0, 2)) == 0 and coef(t["c"]) != 0:
+            # a like term that nearly cancels the first one: the residue c*d is small next to the summands but is
+            # (unless below the library's absolute 1e-8 zero tolerance) part of the operator
+            d = draw(st.sampled_from(NEAR_CANCEL))
+            c = t["c"]
+            t["c"] = ["c", -c[1] * (1 + d), -c[2] * (1 + d)] if isinstance(c, list) else -float(c) * (1 + d)
+        else:
+            t["c"] = draw(coefs(kw.get("zero", True), kw.get("kinds", ("int", "float", "complex"))))
         ts.insert(draw(st.integers(0, len(ts))), t)
     return {"terms": ts}
 
